@@ -11,7 +11,7 @@ var spliceTokens = []string{
 	"~x~", "~", "~~", "~par1~", "edit s/", "edit s/a\n", "edit s,a,b\n", "\\", "\\\n", " \\\n", ":", "#", "title ", "parameter ", " defaults to ",
 	"storyline ", "+", "..", "expects always: ", " watches ", " plays ", "* play ", " with ", "repeat ", " times", "scene ", " entails for ", " every ",
 	"\x00", "\xff", "\xc2\xa0", "\xe2\x80\xa8", "\x0b", "\xc2\x85", "\xe1\x9a\x80", "\xe2\x80\x83", "\xe2\x80\xaf", "\xe2\x81\x9f", "\xe3\x80\x80", "scene \xc2\xa0 mood starts red\n", "scene \xc2\x85 entails for ", "\r", "\r\n", "\t", "'", "\"", "[", "]", "(", ")", "(?P<", "$", "{", "}",
-	"* play -1 ", "* play 0 ", "* play ~par1~ ", " play -3 ", "-1", "-9223372036854775808", "+2", "~u1~ ~u2~ ~u3~", "~a~~b~~c~~d~", "title ~x1~ ~x2~ ~x3~\n",
+	"[]", "[ ]", "[   ] > 0", " expects always: [] ", "* play -1 ", "* play 0 ", "* play ~par1~ ", " play -3 ", "-1", "-9223372036854775808", "+2", "~u1~ ~u2~ ~u3~", "~a~~b~~c~~d~", "title ~x1~ ~x2~ ~x3~\n",
 	" audits only while ", " collects ", " as last 3 ", " computes ", " as ", "t < 5 \\", "'unterminated", "[a b c]", "a.b", "1e999", "9999999999999999999999",
 }
 
